@@ -1,3 +1,4 @@
 import ZxVerif.Props.C17
 import ZxVerif.Props.C10
 import ZxVerif.Props.C11
+import ZxVerif.Props.C12
